@@ -141,6 +141,21 @@ def store(hs, g, path, kind, n):
     raise MachineryError('unknown path %s' % path)
 
 
+def derived_versions(hs, g):
+    """the versions of the grids derived from g right now: slices (whole, reversed, stepped, last row, empty) and
+    filter results -- each is a grid of its own, labelled by the grid it was taken from"""
+    out = []
+    for name, mk in (('g[:]', lambda: g[:]), ('g[::-1]', lambda: g[::-1]), ('g[-1:]', lambda: g[-1:]),
+                     ('g[0:0]', lambda: g[0:0]), ('g[::2]', lambda: g[::2]),
+                     ("filter('a or not a')", lambda: g.filter('a or not a')),
+                     ("filter('a', limit=1)", lambda: g.filter('a', limit=1))):
+        try:
+            out.append((name, str(mk().version)))
+        except Exception as e:
+            out.append((name, 'exception:' + type(e).__name__))
+    return out
+
+
 def text(cps):
     return ''.join(chr(c) for c in cps)
 
@@ -149,6 +164,7 @@ def replay_case(hs, c):
     """returns list of observed [out, ver] per step and problems"""
     ver = text(c['ver']) if c['ver'] else None
     obs, problems = [], []
+    c['_derived'] = []
     if c['t'] == 'ctor':
         v = val(hs, c['kind'])
         try:
@@ -162,6 +178,7 @@ def replay_case(hs, c):
             obs.append(['stored' if str(g.version) == base else 'upgraded', str(g.version)])
             if not present:
                 problems.append('value_not_stored')
+            c['_derived'].append(derived_versions(hs, g))
         except ValueError:
             obs.append(['refused', ver or '2.0'])
         except Exception as e:
@@ -174,6 +191,11 @@ def replay_case(hs, c):
             orig, g = g, copy.deepcopy(g)
             osnap = snapshot(orig)
             path = path[5:]
+        elif path.startswith(('slice_', 'filter_')):
+            # ... or on a grid derived from it: as declared, or as undeclared, as the grid it was taken from
+            orig, g = g, (g[:] if path.startswith('slice_') else g.filter('a or not a'))
+            osnap = snapshot(orig)
+            path = path.split('_', 1)[1]
         else:
             orig = None
         prepare(hs, g, path, n)
@@ -192,6 +214,7 @@ def replay_case(hs, c):
                 problems.append('refused_store_changed_grid')
         except Exception as e:
             obs.append(['exception:' + type(e).__name__, str(g.version)])
+        c['_derived'].append(derived_versions(hs, g))
     return obs, problems
 
 
@@ -296,12 +319,26 @@ def run(tier):
                 seen.add(key); cases.append(d)
         if len(cases) < 3000:
             raise MachineryError('only %d gate cases' % len(cases))
+        nder = 0
         for d in cases:
             c = d['c']
             rep.case(json.dumps(c, sort_keys=True))
             obs, problems = replay_case(hs, c)
+            dv = c.pop('_derived', [])
             exp = [[e['out'], text(e['ver'])] for e in d['expect']]
             steps = c['steps'] if c['t'] == 'seq' else [[c['path'], c['kind']]]
+            # grids derived after each step (slices, filter results) carry the version TLC computes for them
+            for i, (ders, e) in enumerate(zip(dv, d['expect'])):
+                if obs[i][0].startswith('exception') or obs[i] != exp[i]:
+                    break
+                nder += len(ders)
+                wrong = [(nm, v) for nm, v in ders if v != text(e['dver'])]
+                if wrong:
+                    rep.violation({'engine': 'gate-replay', 'clause': 'derived_grid_version', 'path': steps[i][0],
+                                   'kind': steps[i][1], 'ver': text(c['ver']) or 'none', 'how': wrong[0][0]},
+                                  {'case': c, 'step': i + 1, 'derived': wrong, 'expected_version': text(e['dver']),
+                                   'ver_text': text(c['ver']) or None})
+                    break
             for i, (o, e) in enumerate(zip(obs, exp)):
                 if o != e:
                     rep.violation({'engine': 'gate-replay', 'clause': 'outcome', 'path': steps[i][0], 'kind': steps[i][1],
@@ -313,6 +350,9 @@ def run(tier):
                 rep.violation({'engine': 'gate-replay', 'clause': p, 'ver': text(c['ver']) or 'none',
                                'path': steps[-1][0], 'kind': steps[-1][1]}, {'case': c, 'problem': p})
         rep.traces += len(cases)
+        rep.extra['derived_grids_judged'] = nder
+        if nder < 10000 and not rep.violations:
+            raise MachineryError('only %d derived grids were compared with the model' % nder)
         rep.sample({'case': cases[len(cases) // 2]})
         # decision table
         tcases, tinfo = [], {}
